@@ -358,7 +358,7 @@ func c14ReturnsAtomicState(g *ssa.Function) bool {
 	n := 0
 	for _, a := range RetAtoms(g, 0) {
 		call, ok := a.Val.(*ssa.Call)
-		if !ok || CalleeName(call) != "sync/atomic.LoadInt32" {
+		if !ok || (CalleeName(call) != "sync/atomic.LoadInt32" && CalleeName(call) != "(*sync/atomic.Int32).Load") {
 			return false
 		}
 		fa, ok := call.Call.Args[0].(*ssa.FieldAddr)
@@ -408,11 +408,11 @@ func c14R4(c *Ctx) {
 					name = CalleeName(call)
 				}
 				switch {
-				case isCall && name == "sync/atomic.LoadInt32":
+				case isCall && (name == "sync/atomic.LoadInt32" || name == "(*sync/atomic.Int32).Load") && call.Call.Args[0] == ssa.Value(fa):
 					nLoad++
 					idx["load"]++
 					c.Exists(R, fmt.Sprintf("%s|atomic-load#%d", FnName(f), idx["load"]), in.Pos(), true, "atomic read of the capability")
-				case isCall && name == "sync/atomic.CompareAndSwapInt32" && call.Call.Args[0] == ssa.Value(fa):
+				case isCall && (name == "sync/atomic.CompareAndSwapInt32" || name == "(*sync/atomic.Int32).CompareAndSwap") && call.Call.Args[0] == ssa.Value(fa):
 					nCAS++
 					idx["cas"]++
 					old, okOld := constInt(call.Call.Args[1])
